@@ -68,7 +68,7 @@ def run(ctx):
             law("linear", LPF(tiny * x, BW, order).signal / tiny + 10, Fx + 10)
             events.append({"kind": "shape", "same": bool(type(Fe) is electrical_signal and Fe.len() == n and Fe.noise.shape == (n,))})
             meta.append(("shape", "LPF"))
-            if n >= 257:
+            if n >= 257 and BW / fs * n >= 8:        # "away from the record edges": the filter's response (about fs/BW samples) fits well inside the record
                 p = np.exp(-((np.arange(n) - (n - 1) / 2) / (0.02 * n)) ** 2)
                 r = LPF(p, BW, order).signal
                 law("zero-delay-symmetric-pulse", r[::-1] + 1, r + 1, tol=10 ** 6)
